@@ -7,3 +7,18 @@ unsafe impl Trace for Leaf {
     fn trace(&self, _: &mut Context<'_>) {}
 }
 impl Finalize for Leaf {}
+
+/// Zero-sized payload.
+pub(crate) struct Zst;
+unsafe impl Trace for Zst {
+    fn trace(&self, _: &mut Context<'_>) {}
+}
+impl Finalize for Zst {}
+
+/// Over-aligned, larger payload (layout grid representative).
+#[repr(align(64))]
+pub(crate) struct Big(pub [u8; 96]);
+unsafe impl Trace for Big {
+    fn trace(&self, _: &mut Context<'_>) {}
+}
+impl Finalize for Big {}
